@@ -38,6 +38,8 @@ type State struct {
 	preds []*State               // stMerge
 	conds []Term                 // stMerge: edge conditions (last may be ignored)
 	tag   string
+	priv  Term // stHavoc: the $priv array at the time of the havoc (refs still private to the caller)
+	nAllo int  // stHavoc: number of allocation refs known at that time
 }
 
 type CompInfo struct {
@@ -91,6 +93,14 @@ func (e *Enc) Get(s *State, comp string) Term {
 				e.sc.Assert(fmt.Sprintf("(forall ((r Int)) (=> (select %s r) (select %s r)))", p, t))
 			}
 			e.initComp(comp, t)
+			// objects allocated by the function under verification that have not been handed out yet
+			// (still private) cannot be changed by the callee
+			if s.priv != "" && strings.HasPrefix(sort, "(Array Int") && comp != "$alloc" && !strings.HasPrefix(comp, "$") {
+				p := e.Get(s.prev, comp)
+				for _, r := range e.allocRefs[:min(s.nAllo, len(e.allocRefs))] {
+					e.sc.Assert(implies(app("select", s.priv, r), eq(app("select", t, r), app("select", p, r))))
+				}
+			}
 		} else {
 			t = e.Get(s.prev, comp)
 		}
@@ -120,6 +130,9 @@ func (e *Enc) Get(s *State, comp string) Term {
 
 // initComp adds well-formedness facts every version of a component satisfies.
 func (e *Enc) initComp(comp string, t Term) {
+	if comp == "$priv" && strings.Contains(t, "@0") || comp == "$priv" && strings.Contains(t, "@ax") {
+		e.sc.Assert("(= " + t + " ((as const (Array Int Bool)) false))")
+	}
 	if strings.HasPrefix(comp, "MD:") {
 		// the nil map has an empty domain
 		sort := e.comps.sorts[comp]
@@ -150,8 +163,32 @@ func (e *Enc) Set(s *State, comp string, t Term) *State {
 func (e *Enc) Havoc(s *State, mod func(string) bool) *State {
 	n := e.newState(stHavoc)
 	n.prev = s
-	n.mod = mod
+	n.mod = func(c string) bool { return c != "$priv" && mod(c) }
+	n.priv = e.Get(s, "$priv")
+	n.nAllo = len(e.allocRefs)
 	return n
+}
+
+// HavocLoop: like Havoc, but nothing is private any more afterwards (conservative).
+func (e *Enc) HavocLoop(s *State, mod func(string) bool) *State {
+	n := e.Havoc(s, mod)
+	return e.Set(n, "$priv", "((as const (Array Int Bool)) false)")
+}
+
+// Leak marks the references contained in the values as no longer private.
+func (e *Enc) Leak(s *State, vals ...Val) *State {
+	var refs []Term
+	for _, v := range vals {
+		refs = e.refsOf(v, refs, 0)
+	}
+	if len(refs) == 0 {
+		return s
+	}
+	p := e.Get(s, "$priv")
+	for _, r := range refs {
+		p = app("store", p, r, "false")
+	}
+	return e.Set(s, "$priv", p)
 }
 
 func (e *Enc) Merge(preds []*State, conds []Term) *State {
